@@ -708,6 +708,22 @@ def no_half_built_node(ctx, F, cg, RULE, module="samyama::query::executor::", fl
     refused by a constraint, expression error) must not leave the node behind: every error exit reachable from
     a create_node* call passes delete_node of the store first."""
     n = 0
+    # helpers that undo the creation themselves: every error exit of theirs passes delete_node first, so propagating
+    # their error with `?` leaves nothing behind
+    cleaning = set()
+    for p, r in F.fns.items():
+        if "::tests::" in p or not in_module(p, module) or "{closure" in p or GS + "::delete_node" not in r["calls"]:
+            continue
+        if "Result<" not in r["sig"].rsplit("->", 1)[-1] or any(c.startswith(GS + "::create_node") for c in r["calls"]):
+            continue
+        hm = F.mir(p)
+        if not hm:
+            continue
+        hb = Body(hm, r)
+        hd = {c.bb for c in hb.calls() if c.path == GS + "::delete_node"}
+        he = hb.error_exit_blocks()
+        if hd and he and all(hb.must_pass(0, eb, hd) for eb in he):
+            cleaning.add(p.rsplit("::", 1)[-1])
     for p, r in sorted(F.fns.items()):
         if "::tests::" in p or not in_module(p, module):
             continue
@@ -736,6 +752,8 @@ def no_half_built_node(ctx, F, cg, RULE, module="samyama::query::executor::", fl
                 src = _failing_callee(b, eb)
                 if src in ("get_node", "get_edge", "get"):
                     continue        # "the entity just created is not there": cannot happen, nothing to undo
+                if src in cleaning:
+                    continue        # the helper deleted the node before it returned its error
                 # ordinal of the failing call among the calls of that callee in this body (source order)
                 leaks.setdefault(src, el)
             inst = "%s|create_node|%d" % (short, k)
